@@ -397,6 +397,18 @@ def rule4_edges(ctx, m, a, s):
                    'totals by kind are sums over all contracted nodes plus the explicit edges (an assignment keeps only the last node)',
                    loc=st.loc, detail=expr_str(ce, st.ops[0]))
     ctx.ob('C18.4', 'dr_calc_edges accumulates from contracted nodes and explicit edges', n_acc >= 3, 'three accumulation sites', loc=ce.loc)
+    if len(arr) == 1:
+        accs = [st for st in ce.order if st.op == 'store' and ce.strip(ce.ap(st.ops[1]).root) == arr[0].id and const_int(st.ops[0]) != 0]
+        raw = [l for l in ce.order if l.op == 'load' and ce.field(l) == INFO + 'worker']
+        ctx.ob('C18.4', 'dr_calc_edges reads the worker of contracted nodes and of both edge ends', len(raw) >= 3,
+               'worker loads found', loc=ce.loc)
+        badw = lib.unnormalised_index_uses(ce, accs, lambda i: i.op == 'load' and ce.field(i) == INFO + 'worker', -1)
+        ctx.ob('C18.4', 'dr_calc_edges maps worker -1 to the extra row / column before indexing', not badw,
+               'a contracted subgraph that ran on several workers has worker == -1; each coordinate of the table index is that '
+               'very value replaced by nw on its == -1 edge (a coordinate left at -1 charges another cell or writes before the '
+               'table, so the totals change with the contraction policy)',
+               loc=(badw[0][0].loc if badw else ce.loc),
+               detail='; '.join('worker read at line %s reaches the index at line %s unreplaced' % (r.line, a.line) for a, r in badw[:3]))
     # the report prints the whole table as well
     wr = ctx.need_fn(g, 'dr_write_edge_counts')
     rl = [l for l in wr.order if l.op == 'load' and l.ty == 'i64' and is_load_of_field(wr, wr.ap(l.ops[0]).root, 'dr_basic_stat.edge_counts')]
@@ -454,8 +466,15 @@ def rule4_edges(ctx, m, a, s):
         ctx.ob('C18.4', 'dr_calc_edges clears the whole kinds x (nw+1) x (nw+1) table', okz,
                'a row or column left uncleared adds whatever the allocator returned to the totals of the multi-worker bucket', loc=ce.loc,
                detail=detail)
-    ctx.floor('C18.4', 28)
+    ctx.floor('C18.4', 30)
     rule5_sections(ctx)
+    if not getattr(ctx, '_in_c19_share', False):
+        from . import c19
+        with ctx.shared({'C19.9': 'C18.6'}, floor=4,
+                        doc='union discriminant discipline (shared with C19.9): the subgraph range and the child offset of a node share '
+                            'storage; statistics that classify a node as a contracted leaf by its range read it only under the kind that '
+                            'selects the range (otherwise the delay / edge statistics change with the contraction policy)'):
+            c19.rule9_union(ctx)
 
 
 OPENERS = {'dr_push_back_section': {'dr_task_ensure_section', 'dr_begin_section__'},
@@ -648,6 +667,8 @@ def combine_op(f, ref):
 
 INL = 'src/profiler/dag_recorder_inl.h'
 MUTANTS = [
+    {'name': 'dr_calc_edges replaces the wrong coordinate of a multi-worker source (seed3 C19/m3)', 'expect': 'C18.4',
+     'edits': [('src/profiler/gen_stat.c', "#endif\n      uw = nw;\n    }", "#endif\n      vw = nw;\n    }")]},
     {'name': 'collapse zeroes the work of the collapsed node', 'expect': 'C18.1',
      'edits': [(INL, "    dr_free_dag(s, 0, fl);\n    s->info.cur_node_count = 1;", "    dr_free_dag(s, 0, fl);\n    s->info.t_1 = s->info.end.t - s->info.start.t;\n    s->info.cur_node_count = 1;")]},
     {'name': 'collapse before accumulate', 'expect': 'C18.2',
